@@ -269,9 +269,9 @@ def proof_part(rep, prop, thorough_checker=False):
     """Builds the Lean project, audits the property's theorems. Records obligations/discharged.
     A failing build or a bad axiom is a violation without failing input (the caller may then search)."""
     hits = lean_grep_forbidden()
-    ok, log = lean_build()
+    ok, log = lean_build(["GoderiveModel.Props." + prop, "driver"])
     names = prop_theorems(prop)
-    rep.cov["checker_cmd"] = "cd lean && lake build && lake env lean .work/audit/%s.lean  # #print axioms of every theorem in Props/%s.lean" % (prop, prop)
+    rep.cov["checker_cmd"] = "cd lean && lake build GoderiveModel.Props.%s driver && lake env lean .work/audit/%s.lean  # #print axioms of every theorem in Props/%s.lean" % (prop, prop, prop)
     rep.cov["trusted_base"] = list(TRUSTED_COMMON)
     rep.cov["obligations"] = len(names)
     if hits:
